@@ -38,7 +38,8 @@ type c20Exporter struct{}
 
 func (c20Exporter) ConsumeStats(category string, stats *metrics.Stats) error { return nil }
 
-const c20WhoamiDomain = "whoami.example.net."
+// the whoami domain has names below it in the database: only the domain itself belongs to the whoami handler
+const c20WhoamiDomain = "whoami.example.com."
 
 // freePort finds a port that is free for UDP and TCP on ip.
 func freePort(ip string) int {
@@ -99,6 +100,7 @@ func c20BigLines() []string {
 		l = append(l, fmt.Sprintf("&manyns.example.com,192.0.2.%d,ns%02d.manyns.example.com,300", 10+i, i))
 	}
 	l = append(l, "+single.example.com,192.0.2.7,300")
+	l = append(l, "+a.whoami.example.com,192.0.2.77,300", "'a.whoami.example.com,below the whoami domain,300", "+b.a.whoami.example.com,192.0.2.78,300", "+xwhoami.example.com,192.0.2.79,300")
 	for i := 0; i < 6; i++ {
 		l = append(l, fmt.Sprintf("+wrr.example.com,192.0.2.%d,300", 100+i), fmt.Sprintf("+wrr.example.com,2001:db8::%d,300", 100+i))
 	}
@@ -379,11 +381,16 @@ func c20Worker(args []string) int {
 		}
 	}
 	addr, cfg.MaxAns, cfg.IP = mainAddr, mainMax, mainIP
-	// whoami domain
+	// whoami domain (any letter case), and names below / next to it, which belong to the database
 	for _, t := range []uint16{dns.TypeTXT, dns.TypeA} {
-		q := harness.MakeQuery(c20WhoamiDomain, t, 77)
-		compare(q, false, "whoami")
-		compare(q, true, "whoami-tcp")
+		for _, n := range []string{c20WhoamiDomain, "WhoAmI.Example.COM.", "a." + c20WhoamiDomain, "b.a." + c20WhoamiDomain, "nx." + c20WhoamiDomain, "xwhoami.example.com."} {
+			q := harness.MakeQuery(n, t, 77)
+			compare(q, false, "whoami")
+			compare(q, true, "whoami-tcp")
+			if n != c20WhoamiDomain && !strings.EqualFold(n, c20WhoamiDomain) {
+				sum.Counts["queries_below_or_next_to_the_whoami_domain"] += 2
+			}
+		}
 	}
 	// oversized answers: truncated over UDP, complete over TCP
 	for _, bq := range []struct {
@@ -473,7 +480,7 @@ func oneLine(m *dns.Msg) string {
 }
 
 func runC20(r *report.Run) {
-	r.SetRule("a real fbserver.Server on a loopback port (UDP+TCP) per configuration {backend x whoami domain set/unset x refuse-any on/off x max-answer 1/3/8 x 127.0.0.1/::1, plus servers bound to two addresses with different max-answer settings}, race-detector build, child process each; generated queries (names of a generated file, standard and ANY types, one in five with a class other than IN, no EDNS / 512 / 1232 / 4096, with and without ECS) sent with a DNS client over UDP and TCP; every reply is compared canonically with the bare FBDNSDB handler on the same database, remote address and max-answer (addresses reduced to owner+type); oversized answers (40 TXT / 40 NS with glue) must come back with TC over UDP within the advertised size (actual datagram length) and complete over TCP; ANY with refusal must be exactly the synthesized HINFO; whoami-domain queries must be answered by the whoami handler; question-less messages (QDCOUNT=0, and bare headers claiming QDCOUNT=1 with and without ARCOUNT=1, which the DNS library lets through to the front handlers) must get a failure rcode and the server must keep answering; shutdown is performed under load. non-trivial = configuration whose exchanges include a truncated reply and a TCP reply; distinct by configuration")
+	r.SetRule("a real fbserver.Server on a loopback port (UDP+TCP) per configuration {backend x whoami domain set/unset x refuse-any on/off x max-answer 1/3/8 x 127.0.0.1/::1, plus servers bound to two addresses with different max-answer settings}, race-detector build, child process each; generated queries (names of a generated file, standard and ANY types, one in five with a class other than IN, no EDNS / 512 / 1232 / 4096, with and without ECS) sent with a DNS client over UDP and TCP; every reply is compared canonically with the bare FBDNSDB handler on the same database, remote address and max-answer (addresses reduced to owner+type); oversized answers (40 TXT / 40 NS with glue) must come back with TC over UDP within the advertised size (actual datagram length) and complete over TCP; ANY with refusal must be exactly the synthesized HINFO; whoami-domain queries (any letter case) must be answered by the whoami handler, names below and next to the whoami domain by the database; question-less messages (QDCOUNT=0, and bare headers claiming QDCOUNT=1 with and without ARCOUNT=1, which the DNS library lets through to the front handlers) must get a failure rcode and the server must keep answering; shutdown is performed under load. non-trivial = configuration whose exchanges include a truncated reply and a TCP reply; distinct by configuration")
 	r.Assume("loopback only; the harness picks a port free for UDP and TCP and retries on bind failure")
 	var cfgs []c20Config
 	i := 0
